@@ -39,7 +39,13 @@ def gen_case(rng, n_ev_files=None):
                          rng.choice(["x", "has\ttab", 'has "quote"', "", "a;b"])])
             if not mbr:
                 psms.append((raw, scan, mod))
-        ev_files.append({"header_case": rng.choice(["as_is", "lower", "upper"]), "rows": rows})
+        f_ = {"header_case": rng.choice(["as_is", "lower", "upper"]), "rows": rows}
+        if rng.random() < 0.3:
+            # another column layout (a different MaxQuant version): the tool warns and goes on; score and PEP are located per file
+            perm = list(range(len(EV_COLS)))
+            rng.shuffle(perm)
+            f_["perm"] = perm
+        ev_files.append(f_)
     pouts = []
     for k in range(rng.choice([0, 1, 2, 2])):
         rows = []
@@ -65,9 +71,10 @@ def write_inputs(case, d):
         p = os.path.join(d, f"evidence{i}.txt")
         with open(p, "w", newline="") as fh:
             w = csv.writer(fh, delimiter="\t")
-            w.writerow([_case(c, f["header_case"]) for c in EV_COLS])
+            perm = f.get("perm") or list(range(len(EV_COLS)))
+            w.writerow([_case(EV_COLS[k], f["header_case"]) for k in perm])
             for r in f["rows"]:
-                w.writerow(r)
+                w.writerow([r[k] for k in perm])
         evs.append(p)
     for i, f in enumerate(case["pouts"]):
         p = os.path.join(d, f"pout{i}.tab")
